@@ -26,6 +26,7 @@ import time
 from asyncio import CancelledError, current_task
 
 import core
+import tiegen
 
 DRIVERS = [("eventcond", "EventCond")]
 
@@ -1014,6 +1015,10 @@ def load_corpus():
 def replay(path) -> int:
     """bin/replay C11 <file>: re-execute a stored case on the current tree and on the model."""
     d = json.loads(open(path).read())
+    if d.get("kind") == "tie" and not d.get("case"):
+        print("BROKEN TIE (no failing input was found):", "; ".join(d.get("broken", [])))
+        print("tie_T:", {k: v for k, v in (d.get("tie_T") or {}).items() if k != "segments"})
+        return 1
     c = d.get("case") if d.get("kind") == "tie" and d.get("case") else d
     r = run_script(c["machine"], c["ntasks"], bool(c.get("fast", False)), c["ops"], tolerate_invalid=True,
                    nconds=c.get("nconds", 2))
@@ -1029,17 +1034,33 @@ def replay(path) -> int:
     return 1 if (r.unexplained() or r.outs != m) else 0
 
 
+TIE_FILES = ("prims/LockGen.v", "prims/LockGenEq.v", "prims/CondGen.v", "prims/CondGenEq.v")
+TIE_HELPERS = {"notify_loop_sim": "cond_notify_entry (the for-range loop)", "notify_all_sim": "cond_notify_all_entry",
+               "exec_call_check": "cond_check_acquired_entry", "finish_wait_runs": "the finally block of cond_wait",
+               "wait_interrupted_sim": "the except branch of cond_wait", "cstep_runs_generated": "dispatch (whole machine)"}
+
+
 def check(tier: str) -> int:
     rep = core.Report("C11", tier)
     rep.assumptions = core.TRUSTED_BASE_COMMON + [
         "model prims/EventCond.v hand-written from _asyncio.py:1853-1875 (Event), CPython 3.12.1 asyncio/locks.py:155-215, _core/_synchronization.py class Condition (HEAD: holder test asks the lock) and embedding prims/Lock.v; any number of Conditions on ONE shared Lock plus direct lock.acquire/acquire_nowait/release by any task",
+        "tie T: tools/translate_cond.py (python ast -> coq/prims/CondGen.v; fail-closed tables in the script) regenerates the segments of Event.set/is_set/wait and Condition._check_acquired/acquire/acquire_nowait/release/locked/notify/notify_all/wait (cut at its awaits, the finally block copied into both continuations) on every run; CondGenEq.v proves that interpreting them (prims/CondImp.v) is estep (exactly) and cstep at variant 0 on everything the code reads and writes (the shared Lock machine, the condition's own queue, flags and futures of the one-shot events; pointwise on function-valued fields), with the whole-machine theorems cstep_runs_generated / grun_iff_creach. Trusted in it: the translator's tables and its expansion of try/except/finally, CPython await/exception semantics at the cut points (CondImp.dispatch: which continuation runs; the exception raised at event.wait() is CancelledError; locals persist), asyncio.Event and the one-shot anyio Event as modelled, the Lock reached through Lock.step (its code is tied by C09's tie T), deque.remove on an absent element not modelled (an unset waiting event is always queued: CInv), checkpoint_if_cancelled() at the start of wait() read as a no-op in a live scope. The ghost fields of cst are not tied (history variables never read by the code). Not the only tie: the same model is co-simulated against the running code below",
         "cancellation: native Task.cancel() on blocked tasks (both while the awaited future is pending and after it was resolved) and AnyIO CancelScope.cancel() of a scope wrapped around the blocking call",
         "documented scope: a NATIVE Task.cancel() landing inside Condition.wait()'s shielded re-acquire makes wait() raise without the lock and drops the notification; the C11 theorems carry the hypothesis `clean_run` (no such op) and the monitors exempt exactly these histories (AnyIO cancellation cannot do this: shield)",
         "known finding F18 (late_handover): the strong clause C11_notified_only_full is proved under the hypothesis no_late_handover and refuted without it (cond_late_handover_refuted); the monitor reports such histories as KNOWN-FINDING",
     ]
     t_start = time.time()
     phases = {}
-    proofs_ok = core.proof_stage(rep, "props/C11.v")
+    # tie T: regenerate LockGen.v (the shared lock) and CondGen.v (Event, Condition) from the source under test, then
+    # rebuild the cone of props/C11.v, under the `tiegen` lock (harness/tiegen.py)
+    t_rc, t_out, proofs_ok = tiegen.translate_and_prove(rep, "props/C11.v", ["translate_lock.py", "translate_cond.py"])
+    tie_T, tie_T_broken = tiegen.describe(rep, t_rc, t_out, proofs_ok, TIE_FILES, TIE_HELPERS)
+    tie_T["translator"] = "tools/translate_cond.py (python ast -> coq/prims/CondGen.v, fail closed) + tools/translate_lock.py"
+    tie_T["equality_theorems"] = ("CondGenEq.v: tie_event_{set,wait_entry,wait_checkpoint,wait_inner,is_set}, egstep_eq_estep; "
+                                  "tie_cond_{acquire_entry,acquire_resume,acquire_nowait,release,notify,notify_all,wait_entry,"
+                                  "wait_event_resumed,wait_event_cancelled,wait_reacq_resume,locked}, cstep_runs_generated, "
+                                  "grun_iff_creach (props C11_tie_*)")
+    rep.coverage["tie_T"] = tie_T
     phases["proof_stage"] = round(time.time() - t_start, 1)
     exe = core.build_driver("eventcond", "EventCond")
     phases["build_driver"] = round(time.time() - t_start, 1)
@@ -1113,6 +1134,7 @@ def check(tier: str) -> int:
     tie_broken = []
     if not proofs_ok:
         tie_broken.append("proof obligation: " + str(rep.coverage.get("proof_failure", {}).get("where")))
+        tie_broken += tie_T_broken
     if disagreements:
         tie_broken.append("correspondence EventCond.run_case vs anyio.Event/anyio.Condition")
     if rejected:
@@ -1139,7 +1161,7 @@ def check(tier: str) -> int:
             except Exception:  # noqa: BLE001
                 upto = (info["first_diff_step"] + 1) * 4
                 d = replay_dict(r, r.ops[:upto], **info)
-        rep.violation("; ".join(tie_broken), {"kind": "tie", "broken": tie_broken, "case": d,
+        rep.violation("; ".join(tie_broken), {"kind": "tie", "broken": tie_broken, "case": d, "tie_T": tie_T,
                                               "vm_log": vm_log[-800:] if not vm_ok else ""}, no_input=True)
 
     flags = {}
